@@ -266,6 +266,28 @@ func e3RunKill(sc e3Scenario, K int, variant string, traceFile string) (res e3Ki
 	if loc, rem := scn.MaxTXID(filepath.Join(s.Dir, ".db-litestream"), 0), s.RemoteMaxL0(); loc != rem {
 		res.Problems = append(res.Problems, &scn.Problem{Kind: "ack-without-advance", Detail: fmt.Sprintf("after restart: local L0 max %d remote %d", loc, rem)})
 	}
+	// A restore that the kill interrupted is resumed the way an operator (or restore-if-db-missing at start-up) does
+	// it: the same command again, same output path, nothing cleaned up by hand. It must succeed and yield the latest
+	// state. (If the kill fell after the rename the output is complete and was judged above.)
+	for _, op := range sc.Ops {
+		if !strings.HasPrefix(op, "RESTORE:") {
+			continue
+		}
+		out := filepath.Join(s.Dir, strings.TrimPrefix(op, "RESTORE:"))
+		if _, serr := os.Stat(out); serr == nil {
+			continue
+		}
+		r, derr := p2.Do(op)
+		if derr != nil || strings.HasPrefix(r, "err") {
+			res.Problems = append(res.Problems, &scn.Problem{Kind: "restore-not-resumable", Detail: fmt.Sprintf("%s again after the kill (output path absent, nothing cleaned up by hand): %s %v [left behind: %s]", op, r, derr, c03Leftovers(s.Dir))})
+			continue
+		}
+		b, rerr := os.ReadFile(out)
+		want, werr := s.Restore(scn.RestoreOpt{})
+		if rerr != nil || werr != nil || string(want.Data) != string(b) {
+			res.Problems = append(res.Problems, &scn.Problem{Kind: "restore-not-resumable", Detail: fmt.Sprintf("%s again after the kill reported success but the output is not the latest state (read err=%v, reference err=%v)", op, rerr, werr)})
+		}
+	}
 	// The restarted process goes on with its periodic duties: a snapshot and a compaction taken right after
 	// the restart must describe the state they advertise (restore starts from the newest snapshot).
 	for _, op := range []string{"FSNAP", "CMP:1"} {
@@ -285,6 +307,18 @@ func e3RunKill(sc e3Scenario, K int, variant string, traceFile string) (res e3Ki
 		res.Problems = append(res.Problems, &scn.Problem{Kind: "restart-close-failed", Detail: o.String()})
 	}
 	return
+}
+
+// c03Leftovers lists what lies next to the restore output path (staging files of an interrupted restore).
+func c03Leftovers(dir string) string {
+	var out []string
+	ents, _ := os.ReadDir(dir)
+	for _, e := range ents {
+		if strings.HasPrefix(e.Name(), "restored") {
+			out = append(out, e.Name())
+		}
+	}
+	return strings.Join(out, " ")
 }
 
 func c03Scenarios() []e3Scenario {
@@ -338,6 +372,7 @@ func c03(args []string) int {
 		KillPoints int    `json:"kill_points_run"`
 		Exhaustive bool   `json:"exhaustive"`
 		SyscallMix string `json:"syscall_mix"`
+		Classes    int    `json:"distinct_call_classes_run_first"`
 	}
 	var reports []scReport
 	var evals, killed int64
@@ -351,6 +386,8 @@ func c03(args []string) int {
 	defer os.RemoveAll(tmp)
 
 	for si, sc := range scs {
+		// every scenario gets an even share of what is left of the budget (unused time carries over)
+		scDeadline := time.Now().Add(time.Until(deadline) / time.Duration(len(scs)-si))
 		// Record twice: determinism gate.
 		var traces [2][]string
 		var n int
@@ -405,8 +442,36 @@ func c03(args []string) int {
 			v string
 		}
 		var jobs []job
+		// First one representative kill point (the first and the last occurrence) of every distinct call class
+		// (system call + the paths it names, numbers squashed), under every variant: whatever the time budget
+		// cuts later, every kind of mutating call of the scenario has been a kill point. Then every kill point.
+		first, last := map[string]int{}, map[string]int{}
+		var classOrder []string
+		for k := 1; k <= n && k <= len(traces[0]); k++ {
+			c := reNum.ReplaceAllString(traces[0][k-1], "#")
+			if _, ok := first[c]; !ok {
+				first[c] = k
+				classOrder = append(classOrder, c)
+			}
+			last[c] = k
+		}
+		inFront := map[job]bool{}
+		for _, c := range classOrder {
+			for _, k := range []int{first[c], last[c]} {
+				for _, v := range variants {
+					if j := (job{k, v}); !inFront[j] {
+						inFront[j] = true
+						jobs = append(jobs, j)
+					}
+				}
+			}
+		}
+		r.Classes = len(classOrder)
 		for k := 1; k <= n; k++ {
 			for _, v := range variants {
+				if inFront[job{k, v}] {
+					continue
+				}
 				if !thorough && (v == "app-continues" && k%2 == 0 || v == "app-restarts-wal" && k%3 != 0) {
 					// quick tier: the second variant on every other kill point (stated in the evidence)
 					continue
@@ -426,7 +491,7 @@ func c03(args []string) int {
 					if i >= len(jobs) {
 						return
 					}
-					if time.Now().After(deadline) {
+					if time.Now().After(scDeadline) {
 						capped.Store(true)
 						return
 					}
@@ -480,7 +545,7 @@ func c03(args []string) int {
 			exhaustive = false
 		}
 		reports = append(reports, r)
-		fmt.Printf("[C03] scenario %-16s counted=%d kill-runs=%d/%d exhaustive=%v\n", sc.Name, n, done, len(jobs), r.Exhaustive)
+		fmt.Printf("[C03] scenario %-16s counted=%d call-classes=%d kill-runs=%d/%d exhaustive=%v\n", sc.Name, n, r.Classes, done, len(jobs), r.Exhaustive)
 		if harnessErr != nil {
 			break
 		}
@@ -510,7 +575,7 @@ func c03(args []string) int {
 		},
 		Coverage: map[string]any{
 			"evaluations": evals, "distinct_nontrivial": len(outcomes),
-			"rule":    "for each scenario the worker's mutating syscalls are recorded twice (determinism gate) and every one of them is a kill point; after the kill: all final-named LTX files verify, restore output complete or absent, last acknowledged state restorable, then (variants: nothing / application writes+TRUNCATE checkpoint / application commits+FULL checkpoint+commit restarting the WAL) a fresh worker must SyncAndWait successfully and satisfy the page-exact restore oracle; distinct = distinct (syscall, operation in flight) classes",
+			"rule":    "for each scenario the worker's mutating syscalls are recorded twice (determinism gate) and every one of them is a kill point; after the kill: all final-named LTX files verify, restore output complete or absent, last acknowledged state restorable, then (variants: nothing / application writes+TRUNCATE checkpoint / application commits+FULL checkpoint+commit restarting the WAL) a fresh worker must SyncAndWait successfully and satisfy the page-exact restore oracle, and a restore that the kill interrupted must succeed when the same command is issued again with nothing cleaned up by hand; kill points are taken class representatives first (first and last occurrence of every distinct call class, all variants), then in call order, each scenario within an even share of the budget; distinct = distinct (syscall, operation in flight) classes",
 			"samples": samples, "exhaustive": exhaustive, "scenarios": reports, "kills_effective": killed,
 			"kill_classes": top,
 			"variants":     "idle at every kill point; app-continues at every kill point (thorough) / every other kill point (quick)",
@@ -549,6 +614,8 @@ var reTmpPid = regexp.MustCompile(`(\.ltx)\.[^/ ]*\.tmp`)
 func normTmp(p string) string { return reTmpPid.ReplaceAllString(p, "$1.UNIQ.tmp") }
 
 // normTraceAny normalises counted calls: syscall name + path with the scenario directory prefix removed.
+var reNum = regexp.MustCompile(`[0-9a-f]{16}|[0-9]+`)
+
 func normTraceAny(tr []TraceLine) []string {
 	var out []string
 	for _, t := range tr {
